@@ -55,7 +55,7 @@ def _build(i, s, b, str_ok=None):
     pool = hx.Pool(ints=i, strs=s, bools=tuple(b), str_ok=str_ok)
     focus = int(hx.ITEM.split('#')[1]) if '#' in hx.ITEM else None
     gen = valgen.Gen(MODS, pool, max_list=hx.tier(1, 2), catch_all=False, focus=focus,
-                     sym_level=(hx.tier(1, 2) if focus is not None else 9))
+                     sym_level=(1 if focus is not None else 9))
     val, sh = gen.build(dt)
     return dt, validator, val, sh, pool
 
@@ -159,7 +159,7 @@ def omit_decode(i: I8, s: S4, b: B16, p_internal: bool, p_alpha: bool) -> bool:
 
 @hx.harness(props=['C13'], targets=_T_ENC, items=lambda: focus_items(RED_TYPES),
             bound='per annotated type and per top-level field / tag (the other fields hold fixed valid values; leaves '
-                  'deeper than one user type fixed in the quick tier): all ints, strings <= %d over the alphabet {a,b,x,y,space} (regexes (a)(b+) and (x)(y?)), lists <= 1/2, maps over '
+                  'deeper than one user type fixed): all ints, strings <= %d over the alphabet {a,b,x,y,space} (regexes (a)(b+) and (x)(y?)), lists <= 1/2, maps over '
                   '{k,kk}; redaction on and off; all caller classes held' % NS, outside=_OUT, budget=(200, 900),
             glue=['install_md5_stub'])
 def redact(i: I8, s: S6, b: B16, should_redact: bool) -> bool:
